@@ -138,7 +138,7 @@ func (fs *FileStorage) GetMessages(offset uint64) ([]storage.Message, error) {
 		msgs []storage.Message
 		err  error
 		row  []byte
-		data storage.Message
+		pos  uint64
 	)
 	fs.mu.Lock()
 	defer fs.mu.Unlock()
@@ -159,16 +159,21 @@ func (fs *FileStorage) GetMessages(offset uint64) ([]storage.Message, error) {
 	scanner := bufio.NewScanner(reader)
 	buf := make([]byte, 0, 64*1024)
 	scanner.Buffer(buf, maxLineSize)
-	for scanner.Scan() {
+	for ; scanner.Scan(); pos++ {
 		if offset > 0 {
 			offset--
 			continue
 		}
 
+		// A line stands for itself: fields it leaves out are empty, not those of the line read
+		// before it, and its offset is the position it was read at, whatever it claims (the
+		// reader saves it as the point to resume from).
+		var data storage.Message
 		row = scanner.Bytes()
 		if err = json.Unmarshal(row, &data); err != nil {
 			return nil, fmt.Errorf("failed to unmarshal a message %s: %w", string(row), err)
 		}
+		data.Offset = pos
 
 		_, idOk := fs.idIgnoreList[data.ID]
 		_, offsetOk := fs.offsetIgnoreList[data.Offset]
